@@ -414,6 +414,19 @@ class Shared:
 
             def f1(ctx):
                 return sh.w().strategy_ctx(sid, ctx)
+            if sh.seq.get("spy_strategy"):
+                # context-style strategies may be stateful: the library reports outcomes back to them (record_failure when the
+                # strategy is selected for a failure, record_success after a success); made visible for the pairwise part of C12
+                class SpyStrategy:
+                    def __call__(self, ctx):
+                        return f1(ctx)
+
+                    def record_failure(self, klass):
+                        sh.w().trace.append(["SF", sid, getattr(klass, "name", repr(klass))])
+
+                    def record_success(self):
+                        sh.w().trace.append(["SS", sid])
+                return SpyStrategy()
             return f1
 
         kw = dict(
